@@ -20,7 +20,7 @@ RULE = ("seeded circuits whose nodes share NodeTemplate / OperatorTemplate objec
         "one override that addresses some but not all nodes sharing a template; distinct = distinct (spec, overrides) hash")
 DECIDING = ['arg_value_checks', 'layout_checks', 'derivatives_compared', 'sibling_circuit_checks', 'template_fingerprint_checks',
             'update_var_scalar', 'update_var_array', 'node_values', 'edge_updates', 'first_row_checks',
-            'population_updates_scalar', 'population_updates_per_unit', 'late_edges_added_in_place', 'compiled_before_updates', 'population_sibling_checks', 'edge_template_constant_updates']
+            'population_updates_scalar', 'population_updates_per_unit', 'late_edges_added_in_place', 'compiled_before_updates', 'population_sibling_checks', 'edge_template_constant_updates', 'sibling_built_from_same_edge_lists']
 ASSUMPTIONS = ['array values are distributed one per addressed node in declaration (path) order',
                'node_values addresses all nodes matching the node part of the path']
 CASE_TIMEOUT = 180
@@ -76,8 +76,9 @@ def run_population_case(case, ctx):
                 scalar = (rnd.random() < 0.5 and v not in de) or p['n'] == 1
                 orig = p['params'].get(v)
                 p['params'][v] = [fresh()] * p['n'] if scalar else [fresh() for _ in range(p['n'])]
-                pre[f'{pn}/{v}'] = {'orig': orig, 'scalar': scalar}
+                pre[f'{pn}/{v}'] = {'orig': orig, 'scalar': scalar, 'via': rnd.choice(['update_var', 'update_var', 'node_values'])}
         plan_['pre_update'] = pre
+        plan_['sibling_same_containers'] = rnd.random() < 0.5
         res = c16.run_case({'cseed': case['cseed'], 'spec': plan_, 'case_risk': []}, ctx)
     # a sibling circuit that holds the same PopulationTemplate objects and was built before the updates must not see them
     if res.get('status') == 'ok':
@@ -114,6 +115,7 @@ def run_population_case(case, ctx):
     res['case_extra'] = {'case_risk': []}
     m = res.setdefault('mech', {})
     pre = (case.get('spec') or plan_).get('pre_update', {})
+    m['population_node_values'] = sum(1 for u in pre.values() if u.get('via') == 'node_values')
     m['population_updates_scalar'] = sum(1 for u in pre.values() if u['scalar'])
     m['population_updates_per_unit'] = sum(1 for u in pre.values() if not u['scalar'])
     res['features'] = list(res.get('features', [])) + ['population_update_var']
@@ -306,7 +308,10 @@ def run_case(case, ctx):
             tmpl_nou, objs = build.build_python(base_spec)
         sibling = copy.copy(tmpl_nou)   # shallow: same node/operator template objects, own dicts
         from pyrates import CircuitTemplate
-        sibling = rebuild_from_objects(base_spec, objs)
+        share_lists = not late and rnd.random() < 0.5
+        sibling = rebuild_from_objects(base_spec, objs, share_edge_lists=share_lists)
+        if share_lists:
+            mech['sibling_built_from_same_edge_lists'] = 1
         fp_before = tplfp.dumps([tplfp.fingerprint(o) for o in list(objs['ops'].values()) + list(objs['nts'].values())])
         if spec.get('compile_first'):
             try:
@@ -369,16 +374,24 @@ def run_case(case, ctx):
     return res
 
 
-def rebuild_from_objects(spec, objs):
-    """Second circuit from the very same NodeTemplate / OperatorTemplate objects."""
+def rebuild_from_objects(spec, objs, share_edge_lists=False):
+    """Second circuit from the very same NodeTemplate / OperatorTemplate objects (share_edge_lists: also from the very same
+    edge list and edge attribute dictionary objects that the first circuit was constructed with)."""
     from pyrates import CircuitTemplate
     shared = {}
+    lists = list(objs.get('edge_lists', [])) if share_edge_lists else []
+    counter = [0]
 
     def circ(c):
         tag = c.get('__share')
         if tag is not None and tag in shared:
             return shared[tag]
         edges = [(s, t, objs['ets'][et] if et else None, dict(a)) for s, t, et, a in c.get('edges', [])]
+        if share_edge_lists:
+            mine = lists[counter[0]] if counter[0] < len(lists) else None
+            counter[0] += 1
+            if mine is not None and len(mine) == len(edges):
+                edges = mine
         if c.get('subs'):
             t_ = CircuitTemplate(name=c['name'], circuits={k: circ(v) for k, v in c['subs'].items()}, edges=edges)
         else:
